@@ -14,6 +14,7 @@ COMMUNITY = None
 
 
 LAST_DRIFT = 0
+LAST_EXTRA = {}
 
 
 class ToolError(Exception):
@@ -223,6 +224,7 @@ def validate_trace(trace_module, events, tag, shards=1, timeout=900, cfg=None):
     bad, states = [], 0
     global LAST_DRIFT
     LAST_DRIFT = 0
+    LAST_EXTRA.clear()
     with concurrent.futures.ThreadPoolExecutor(max_workers=min(16, len(jobs))) as ex:
         for (si, off, path, n), r in ex.map(one, jobs):
             if r["timeout"]:
@@ -236,6 +238,9 @@ def validate_trace(trace_module, events, tag, shards=1, timeout=900, cfg=None):
                 raise ToolError("trace spec %s consumed %s of %d events" % (trace_module, body, n))
             idxs = body.get("bad", [])
             LAST_DRIFT += body.get("drift", 0)
+            for key in ("extras", "seen"):
+                if key in body:
+                    LAST_EXTRA[key] = LAST_EXTRA.get(key, 0) + body[key]
             bad += [off + x - 1 for x in idxs]
             states += r["distinct"]
     return len(events) - len(bad), sorted(bad), states
